@@ -156,3 +156,8 @@ where
         }
     }
 }
+
+#[cfg(kani)]
+mod verif_kani {
+    include!(concat!(env!("H33P_CGLUE_VERIF_DIR"), "/option.rs"));
+}
